@@ -979,9 +979,10 @@ theorem decodeFeeAux_encodeFee (cs : List Coin) (tail : Bytes) (ht : ∀ t, tail
       simp only [decodeFeeAux, decodeLenPrefixed_lenPrefixed _ _ h3, decodeCoin_encodeCoin c h1 h2,
         ih (fun z hz => ha z (List.mem_cons_of_mem _ hz)) f (by simpa using hf)]
 
-theorem stdTx_tail_head (t : StdTxRec) (x : Nat) (hx : x = 10 ∨ x = 18) : ∀ r, encodeStruct 3 (stdTxTail t) ≠ x :: r := by
+theorem tail_head (tail : List Fld) (hl : 3 + tail.length ≤ 16) (x : Nat) (hx : x = 10 ∨ x = 18) :
+    ∀ r, encodeStruct 3 tail ≠ x :: r := by
   intro r h
-  rcases encodeStruct_head 3 (stdTxTail t) (by simp [stdTxTail]) with e | ⟨j, u, h1, h2, e | e⟩
+  rcases encodeStruct_head 3 tail hl with e | ⟨j, u, h1, h2, e | e⟩
   · rw [e] at h; cases h
   · rw [e] at h; simp only [List.cons.injEq] at h; omega
   · rw [e] at h; simp only [List.cons.injEq] at h; omega
@@ -1010,45 +1011,50 @@ theorem stdTxTail_ok (t : StdTxRec) (h : StdTxInRange t) : ∀ f ∈ stdTxTail t
   · exact h5
   · exact toU64_lt _
 
-theorem decodeStdTxCore_encode (t : StdTxRec) (h : StdTxInRange t) :
-    decodeStdTxCore (encodeStdTxCore t) = some (t.msg, t.fee, stdTxTail t) := by
-  have hfee : ∀ c ∈ t.fee, c.amount.natAbs < 2 ^ 255 ∧ c.denom.length < 2 ^ 64 ∧ (encodeCoin c).length < 2 ^ 64 := by
+/-- the shared layout decodes back: optional field 1, the repeated coins, the tail -/
+theorem decodeMFT_encodeMFT (m : Bytes) (fee : List Coin) (tail : List Fld) (hm : m.length < 2 ^ 64)
+    (hf : ∀ c ∈ fee, c.amount.natAbs < 2 ^ 255 ∧ c.denom.length < 2 ^ 63)
+    (hl : 3 + tail.length ≤ 16) (hok : ∀ f ∈ tail, Fld.ok f) :
+    decodeMFT (tail.map Fld.kind) (encodeMFT m fee tail) = some (m, fee, tail) := by
+  have hfee : ∀ c ∈ fee, c.amount.natAbs < 2 ^ 255 ∧ c.denom.length < 2 ^ 64 ∧ (encodeCoin c).length < 2 ^ 64 := by
     intro c hc
-    obtain ⟨a, b⟩ := h.2.1 c hc
+    obtain ⟨a, b⟩ := hf c hc
     have e63 : (2:Nat) ^ 63 = 9223372036854775808 := by decide
     have e64 : (2:Nat) ^ 64 = 18446744073709551616 := by decide
     have b' : c.denom.length < 2 ^ 64 := by omega
     have := encodeCoin_length_le c a b'
     exact ⟨a, b', by omega⟩
-  have htail := decodeStruct_encodeStruct 3 (stdTxTail t) (by simp [stdTxTail]) (stdTxTail_ok t h)
-  have hk : (stdTxTail t).map Fld.kind = [true, true, false] := rfl
-  rw [hk] at htail
-  -- the part after the message
-  have hrest18 : ∀ r, encodeStruct 3 (stdTxTail t) ≠ 18 :: r := stdTx_tail_head t 18 (Or.inr rfl)
-  have hfeeDec := decodeFeeAux_encodeFee t.fee (encodeStruct 3 (stdTxTail t)) hrest18 hfee
-  have hrest10 : ∀ r, encodeFee t.fee ++ encodeStruct 3 (stdTxTail t) ≠ 10 :: r := by
+  have htail := decodeStruct_encodeStruct 3 tail hl hok
+  have hrest18 : ∀ r, encodeStruct 3 tail ≠ 18 :: r := tail_head tail hl 18 (Or.inr rfl)
+  have hfeeDec := decodeFeeAux_encodeFee fee (encodeStruct 3 tail) hrest18 hfee
+  have hrest10 : ∀ r, encodeFee fee ++ encodeStruct 3 tail ≠ 10 :: r := by
     intro r hr
-    cases hf : t.fee with
-    | nil => rw [hf] at hr; simp only [encodeFee, List.flatMap_nil, List.nil_append] at hr; exact stdTx_tail_head t 10 (Or.inl rfl) r hr
-    | cons c cs => rw [hf, encodeFee_cons] at hr; simp at hr
-  have step1 : decodeOptBytes 10 (encodeStdTxCore t) = some (t.msg, encodeFee t.fee ++ encodeStruct 3 (stdTxTail t)) := by
-    unfold encodeStdTxCore
-    by_cases hm : t.msg.isEmpty = true
-    · have hm' : t.msg = [] := List.isEmpty_iff.1 hm
-      simp only [encodeFld, hm, if_true, List.nil_append, hm']
-      cases hx : encodeFee t.fee ++ encodeStruct 3 (stdTxTail t) with
+    cases fee with
+    | nil => simp only [encodeFee, List.flatMap_nil, List.nil_append] at hr; exact tail_head tail hl 10 (Or.inl rfl) r hr
+    | cons c cs => rw [encodeFee_cons] at hr; simp at hr
+  have step1 : decodeOptBytes 10 (encodeMFT m fee tail) = some (m, encodeFee fee ++ encodeStruct 3 tail) := by
+    unfold encodeMFT
+    by_cases hme : m.isEmpty = true
+    · have hm' : m = [] := List.isEmpty_iff.1 hme
+      subst hm'
+      simp only [encodeFld, List.isEmpty_nil, if_true, List.nil_append]
+      cases hx : encodeFee fee ++ encodeStruct 3 tail with
       | nil => rfl
       | cons k r =>
         have : k ≠ 10 := fun e => hrest10 r (by rw [hx, e])
         simp [decodeOptBytes, this]
-    · have hm2 : t.msg.isEmpty = false := by simpa using hm
+    · have hm2 : m.isEmpty = false := by simpa using hme
       simp only [encodeFld, hm2, Bool.false_eq_true, if_false, fieldKey_small 1 (by omega)]
-      have := decodeLenPrefixed_lenPrefixed t.msg (encodeFee t.fee ++ encodeStruct 3 (stdTxTail t)) h.1
+      have := decodeLenPrefixed_lenPrefixed m (encodeFee fee ++ encodeStruct 3 tail) hm
       simp [decodeOptBytes, this, hm2]
-  unfold decodeStdTxCore
+  unfold decodeMFT
   rw [step1]
   simp only []
-  rw [hfeeDec _ (by have := encodeFee_length_ge t.fee; simp; omega)]
+  rw [hfeeDec _ (by have := encodeFee_length_ge fee; simp; omega)]
   simp only [htail]
+
+theorem decodeStdTxCore_encode (t : StdTxRec) (h : StdTxInRange t) :
+    decodeStdTxCore (encodeStdTxCore t) = some (t.msg, t.fee, stdTxTail t) :=
+  decodeMFT_encodeMFT t.msg t.fee (stdTxTail t) h.1 h.2.1 (by simp [stdTxTail]) (stdTxTail_ok t h)
 
 end Posmint.Codec
